@@ -473,3 +473,27 @@ Definition deadlines_c12b (I : tinst) (p : plan) : bool :=
 Definition hopeless_answer_okb (deadline now fastest : Z) (placed cancelled cplex : bool) : bool :=
   let h := deadline <? now + fastest in
   (negb h || negb placed) && (if cplex then Bool.eqb cancelled h else negb cancelled).
+
+(* ---- decidable well-formedness of an instance (the hypotheses of the theorems, checked on every
+   instance the implementation builds) *)
+(* request of a running task on worker index w for resource r *)
+Definition running_req (x : ttask) (w r : Z) : Z :=
+  match tt_state x with
+  | SRunning w' s _ => if w' =? w then rget (st_req s) r else 0
+  | _ => 0
+  end.
+Definition nonneg_vec (v : rvec) : bool := forallb (fun rq => 0 <=? snd rq) v.
+Definition running_keys (I : tinst) : list Z :=
+  flat_map (fun x => match tt_state x with SRunning _ s _ => map fst (st_req s) | _ => [] end) (ti_tasks I).
+Definition wf_instb (I : tinst) : bool :=
+  (0 <? ti_disc I) && (0 <=? horizon I) &&
+  nodupb (map tt_id (ti_tasks I)) && nodupb (map tw_idx (ti_workers I)) &&
+  forallb (fun x => forallb (fun s => nonneg_vec (st_req s) && nodupb (map fst (st_req s))) (tt_strats x)) (ti_tasks I) &&
+  forallb (fun w => nonneg_vec (tw_total w)) (ti_workers I) &&
+  forallb (fun x => match tt_state x with
+                    | SRunning _ s rem => (0 <=? rem) && (rem <=? st_runtime s) && nonneg_vec (st_req s)
+                    | _ => true end) (ti_tasks I) &&
+  forallb (fun w => forallb (fun r => fold_right Z.add 0 (map (fun x => running_req x (tw_idx w) r) (ti_tasks I))
+                                      <=? rget (tw_total w) r) (running_keys I)) (ti_workers I) &&
+  forallb (fun x => forallb (fun pid => match find_tt (ti_tasks I) pid with Some _ => true | None => false end) (tt_parents x)
+                    && (Z.of_nat (length (tt_parents x)) <=? tt_nparents x)) (ti_tasks I).
